@@ -63,6 +63,36 @@ theorem recovered_never_when (limit : Nat) (s : RStream) (hi : s.Inv) (req : Req
       · exact absurd h1 he2
     · exact absurd ht h4
 
+/-- **recovered_true_iff_buffered.**  With publications buffered concurrently (any list), the decision
+is the same unless the merge detects a gap and the client is disconnected with insufficient state. -/
+theorem recovered_true_iff_buffered (limit : Nat) (s : RStream) (hi : s.Inv) (req : Req) (hoff : req.offset < U64)
+    (pass : Pub → Bool) (buffered : List MPub) :
+    streamSubscribe limit s req pass buffered = .insufficient ∨
+    ((streamSubscribe limit s req pass buffered).recovered = true ↔
+      epochOK s req.epoch ∧ req.offset ≤ s.top ∧ gapRetained s req.offset ∧ ¬ truncated limit s req.offset) := by
+  rw [streamSubscribe_shape limit s hi req hoff pass buffered]
+  by_cases hc : streamCond limit s req
+  · rw [if_pos hc]
+    rcases finish_cases false false true ((s.log.drop req.offset).map (toM pass)) buffered s.top s.epoch
+      req.offset true with h | h
+    · exact Or.inl h
+    · right
+      rw [h]
+      simp only [true_iff]
+      exact ⟨hc.1, hc.2.1, (gap_iff s hi _ hc.2.1).mpr hc.2.2.1, hc.2.2.2⟩
+  · rw [if_neg hc]
+    have hrhs : ¬ (epochOK s req.epoch ∧ req.offset ≤ s.top ∧ gapRetained s req.offset ∧
+        ¬ truncated limit s req.offset) := by
+      rintro ⟨h1, h2, h3, h4⟩
+      exact hc ⟨h1, h2, (gap_iff s hi _ h2).mp h3, h4⟩
+    cases hr : req.reject
+    · simp only [Bool.false_eq_true, if_false]
+      rcases finish_cases false false false [] buffered s.top s.epoch req.offset true with h | h
+      · exact Or.inl h
+      · right; rw [h]; simp [hrhs]
+    · right
+      simp [Outcome.recovered, hrhs]
+
 /-- **recovered_pubs_exact.**  When `recovered = true` the reply carries exactly the publications of
 the epoch after the requested offset, in order, minus the filtered ones; the reply offset is the
 requested one, the epoch the stream's, and the position the client is put at is the stream top. -/
